@@ -131,6 +131,12 @@ func vPassVariant(v string) string {
 		return vPassphrase + "x"
 	case "upper":
 		return "Correct Horse Battery Staple"
+	case "trailingnl": // what a form field filled from a file with a final newline carries
+		return vPassphrase + "\n"
+	case "leadingsp":
+		return " " + vPassphrase
+	case "crlf":
+		return "\t" + vPassphrase + "\r\n"
 	}
 	return v
 }
